@@ -54,7 +54,7 @@ static std::vector<PopRec> execute(const Plan& pl, const V3& shift, RunResult& r
 static std::string compare(const std::vector<PopRec>& A, const std::vector<PopRec>& B, const V3& t, double L, double K, size_t& at) {
     std::ostringstream e; double tn = t.norm();
     if (A.size() != B.size()) { at = std::min(A.size(), B.size()); e << "runs stopped after " << A.size() << " and " << B.size() << " iterations"; return e.str(); }
-    double tolx = 1e-7 * L + 64 * 2.2e-16 * (tn + L) + 500 * L * 2.2e-16 * std::pow(tn / L, 3) * (1 + A.size() / 10.0);   // last term: the code sums volume terms about the origin
+    double tolx = 1e-7 * L + 64 * 2.2e-16 * (tn + L) + 2000 * L * 2.2e-16 * std::pow(tn / L, 3) * (1 + A.size() / 10.0);   // last term: the code sums volume terms about the origin
     double relv = 1e-7 + 4000 * 2.2e-16 * std::pow(1 + tn / L, 3);
     for (size_t i = 0; i < A.size(); i++) {
         at = i + 1;
